@@ -132,6 +132,34 @@ def dart_alloc_rules(ck, rule, facts):
                 if (p_.get("v") or "").split("::")[-1] == "DiplomatOption" and any(z.get("k") in ("call", "mcall") and (C.callee(z) or "").endswith("alloc_name") for z in C.walk(body_)):
                     ok_rec = True
         rec_by_fn[C.norm_path(a_["path"]).split("::")[-2]] = ok_rec
+    # JS: the arena for a struct field is chosen on the type inside a DiplomatOption (an optional borrowed slice lives as long as the lifetime it borrows,
+    # like the plain slice; an optional primitive needs no arena) -- the choosing match looks at the peeled type and has no arm of its own for DiplomatOption
+    import flow
+    gf = tool.fn("js::gen::TyGenContext::generate_fields", optional=True)
+    if gf is None:
+        ck.bad(rule, "js::generate_fields/arena-choice-sees-through-option", "generate_fields not found", None)
+    else:
+        defs_ = dict(flow.defs_of(gf))
+        chosen = [m_ for m_ in C.walk(C.fn_body(gf)) if m_.get("k") == "match" and (m_.get("sadt") or "").endswith("hir::types::Type") and
+                  any("functionCleanupArena" in l_ for a_ in m_["arms"] for l_ in C.str_lits(a_["b"]))]
+        ok_js, why_js = len(chosen) == 1, "the arena-choosing match was not found (%d candidates)" % len(chosen)
+        if ok_js:
+            m_ = chosen[0]
+            own_arm = [a_ for a_ in m_["arms"] if "DiplomatOption" in json.dumps(a_["pat"]) and not C.diverges(a_["b"]) and C.strip(a_["b"]).get("p", "") != "core::option::Option::None"]
+            sc = C.strip(m_["s"])
+            for _ in range(4):
+                if sc.get("k") == "local" and defs_.get(sc.get("id"), (None,))[0] == "expr":
+                    sc = C.strip(defs_[sc["id"]][1])
+                elif sc.get("k") in ("addr", "un") and isinstance(sc.get("e"), dict):
+                    sc = C.strip(sc["e"])
+                else:
+                    break
+            peels = any((y.get("k") == "let" and "DiplomatOption" in json.dumps(y.get("pat"))) or (y.get("k") == "match" and any("DiplomatOption" in json.dumps(a_["pat"]) for a_ in y["arms"])) or
+                        (y.get("k") in ("mcall", "call") and (y.get("m") or C.callee(y) or "").endswith("unwrap_option")) for y in C.walk(sc))
+            ok_js = peels and not own_arm
+            why_js = "the match that chooses a field's arena %s" % ("gives DiplomatOption an arm of its own" if own_arm else "looks at the field type without peeling DiplomatOption")
+        ck.expect(ok_js, rule, "js::generate_fields/arena-choice-sees-through-option", "decided on the peeled type", why_js + ": an optional borrowed slice field is staged in the per-call arena and "
+                  "freed when the method returns while the returned object still borrows it (or an optional primitive asks for an allocator that is not there)", C.loc(gf))
     ck.expect(len(rec_by_fn) >= 2 and all(rec_by_fn.values()), rule, "dart::alloc_name/sees-through-option", str(rec_by_fn),
               "a Dart allocator lookup no longer recurses into DiplomatOption (%s): Option<struct> / Option<slice> values reach `unwrap()` / `need allocator for slice` with None, or an optional slice "
               "field is put into the temporary arena and freed while the returned object still borrows it" % rec_by_fn, C.loc(an[0]) if an else C.loc(dg))
@@ -568,6 +596,21 @@ def run(ck, facts):
         ck.expect(prod is not None and scrut_ok and set(need) <= set(prod), "R5", "js::generate_method/allocator-producers", "allocator for %s (param.ty itself)" % prod,
                   "generate_method supplies an allocator for %s of %s, but the conversion unwraps one for %s: an accepted parameter (e.g. Option<u8> under js.abi = \"spec\") reaches "
                   "`Expected an allocator to be specified`" % (prod, "param.ty" if scrut_ok else "a derived type (not param.ty itself)", need), C.loc(gm))
+    # struct fields: generate_fields supplies an allocator only for slice / struct payloads (the arena choice, C04.R1), which is all `_writeToArrayBuffer` needs.
+    # The flattened-list conversion of a field (JsToCConversionContext::List) also unwraps one for an optional primitive, and exists for the legacy ABI only:
+    # it is requested only under `WasmABI::Legacy`
+    gfl = tool.fn("js::gen::TyGenContext::generate_fields", optional=True)
+    nlist = 0
+    if gfl is not None:
+        for n_, st_ in C.with_conditions(C.fn_body(gfl)):
+            if n_.get("k") == "call" and (n_.get("ctor") or "").endswith("JsToCConversionContext::List"):
+                nlist += 1
+                legacy = any(k_ == "arm" and (a_.get("sadt") or "").endswith("WasmABI") and "Legacy" in json.dumps(b_["pat"]) and "CSpec" not in json.dumps(b_["pat"]) for k_, a_, b_ in st_)
+                ck.expect(legacy, "R5", "js::generate_fields/list-context-only-for-legacy#%d" % nlist, "under WasmABI::Legacy",
+                          "generate_fields asks for the flattened-list conversion of a struct field for every ABI: under js.abi = \"spec\" a field of type DiplomatOption<primitive / enum> has no "
+                          "allocator (none is needed to write it into a buffer) and the conversion panics with `Expected an allocator to be specified`", C.loc(gfl, n_.get("ln")))
+    if nlist < 1:
+        ck.bad("R5", "js::generate_fields/list-context-floor", "no JsToCConversionContext::List construction found in generate_fields (1 counted)")
     import c04
     sub = C.SubCheck(ck, "R5", "", ["R6"], key_re=r"lifetime-env|def-lifetime-in-user-env|matcher-selftest|^floor|loop-pattern")   # the index-branding part of C04.R6 (an index into the wrong environment panics)
     c04.run(sub, facts)
